@@ -17,7 +17,7 @@ MANIFEST = dict(
          "model, which covers all wake-up orders, jitter and any number of waiters. Tie = trace validation: the real task set started by GeckoAsyncSpa._connect on the "
          "virtual-time loop, queue instrumented from outside, arrival scripts of known / unknown / unsolicited / mis-addressed / malformed datagrams; every observed "
          "put / pop / mark / unhandled-consumer step must be enabled in the model and have the model's outcome."
-         " Since session 3: the connection's packet consumer is also modelled at the byte level as the long-lived object it is (Model/PacketConsumer.lean over C04's regex model): consume_eq_spec (over any history and whatever the object held before, what is re-queued is exactly the DATAS of the frames that parse and carry this connection's address and identifier pair), misaddressed_frame_no_effect / addressed_frame_requeued for arbitrary payloads; tied by feeding histories to the real handler + the real _async_on_packet exactly as consume() does, plus a re-queue conservation monitor on the whole task set. Session 4: the client event handler really suspends (0/250/0/120 ms by round) so peek and pop are separated by other consumers turns; a consumer task that ends with an exception is a violation. The atomic consumer step of the model is itself proved: the suspension skeletons of the three consuming coroutines are regenerated from the source, a static analysis proved sound for every trace (scan_sound) shows no suspension point between looking at the head and popping it, and atomic_sections lifts that to every schedule of the event loop (peek_pop_atomic_in_every_schedule). The packet-consumer correspondence observes the real protocol queue; a backlog run of 150 datagrams with a conservation check at the end. Session 5: unwrapper_overwrites_its_fields_for_every_datagram (+ _traces) over the regenerated skeleton of the unwrapper's handle. Round 14: an abandoned connection attempt ending while a second connection of the same manager is live - the live connection keeps consuming.",
+         " Since session 3: the connection's packet consumer is also modelled at the byte level as the long-lived object it is (Model/PacketConsumer.lean over C04's regex model): consume_eq_spec (over any history and whatever the object held before, what is re-queued is exactly the DATAS of the frames that parse and carry this connection's address and identifier pair), misaddressed_frame_no_effect / addressed_frame_requeued for arbitrary payloads; tied by feeding histories to the real handler + the real _async_on_packet exactly as consume() does, plus a re-queue conservation monitor on the whole task set. Session 4: the client event handler really suspends (0/250/0/120 ms by round) so peek and pop are separated by other consumers turns; a consumer task that ends with an exception is a violation. The atomic consumer step of the model is itself proved: the suspension skeletons of the three consuming coroutines are regenerated from the source, a static analysis proved sound for every trace (scan_sound) shows no suspension point between looking at the head and popping it, and atomic_sections lifts that to every schedule of the event loop (peek_pop_atomic_in_every_schedule). The packet-consumer correspondence observes the real protocol queue; a backlog run of 150 datagrams with a conservation check at the end. Session 5: unwrapper_overwrites_its_fields_for_every_datagram (+ _traces) over the regenerated skeleton of the unwrapper's handle. Round 14: an abandoned connection attempt ending while a second connection of the same manager is live - the live connection keeps consuming. Round 15: datagrams coalescing several <PACKT> elements, each addressed to this connection or to somebody else - no queue entry begins with a foreign element's message.",
     note="partial: the head-of-line bound is proved under the fairness hypothesis 'the unhandled consumer runs when its 100 ms timer is due' (no event-loop stall; "
          "real timer skew is outside); the safety clauses need no such hypothesis. Trusted: Lean kernel; asyncio semantics (no pre-emption between awaits); the harness "
          "instrumentation (monkeypatched AsyncPeekableQueue recording caller frames). A consumer whose async_handle raises on a malformed body dies (Python task semantics); "
@@ -445,6 +445,7 @@ def run(ctx):
     packet_consumer_histories(ctx)
     try:
         check_overlapping_attempts(ctx)
+        check_coalesced_datagrams(ctx)
     except Exception as e:  # noqa
         ctx.obligation_broken("harness:overlapping-attempts", f"{type(e).__name__}: {e}")
     rng = ctx.rng
@@ -554,7 +555,46 @@ def run(ctx):
                         "runs with timer jitter model event-loop stalls and are validated in the model's unfair mode (safety clauses only)"]
 
 
+def check_coalesced_datagrams(ctx, only=None):
+    """one datagram holding SEVERAL <PACKT> elements (a relay or a later firmware may coalesce them), each addressed to this connection
+    or to somebody else: whatever the client makes of such a datagram, content of an element that is NOT addressed to this connection's
+    identifier pair never reaches its consumers (real protocol object, packet handler and `_async_on_packet`)"""
+    import itertools
+    from props import c04
+    p2, p3 = b"IOSmine-0001", b"SPA01:02:03:04:05:06"
+    others = {"o": (p2, p3), "f": (b"IOSother-9999", p3), "s": (p2, b"SPAff:ff:ff:ff:ff:ff")}
+
+    def element(who, k):
+        a, b = others[who]
+        return b"<PACKT><SRCCN>" + b + b"</SRCCN><DESCN>" + a + b"</DESCN><DATAS>STATP\x01\x00" + bytes([0x10 + k, 0x60 + k, ord(who)]) + b"</DATAS></PACKT>"
+    for n in (2, 3):
+        for combo in itertools.product("ofs", repeat=n):
+            if only is not None and list(combo) != only:
+                continue
+            dg = b"".join(element(w, k) for k, w in enumerate(combo))
+            try:
+                got = c04.receive_path(dg, p2, p3)
+            except Exception as e:  # noqa
+                got = [f"raised {type(e).__name__}: {e}".encode()]
+            ctx.count("evaluations")
+            ctx.hist("coalesced_datagrams", "".join(combo))
+            # (the unchanged client takes the datagram for ONE packet: first source, content up to the last closing tag - its consumer
+            # reads the leading message and ignores the rest; what must not happen is a queue entry that BEGINS with a foreign element's message)
+            mine = [b"STATP\x01\x00" + bytes([0x10 + k, 0x60 + k, ord(w)]) for k, w in enumerate(combo) if w == "o"]
+            foreign = [x for x in got if not (isinstance(x, bytes) and any(x.startswith(m) for m in mine))]
+            if foreign:
+                ctx.violation("coalesced-datagram:foreign-content-consumed", {"kind": "coalesced", "elements": list(combo)},
+                              "only content addressed to this connection's identifier pair is queued for its consumers",
+                              {"queued": [x.decode("latin1") for x in got]})
+                return
+
+
 def replay(inp):
+    if inp.get("kind") == "coalesced":
+        from common import Ctx
+        c = Ctx("C07", "quick", 0)
+        check_coalesced_datagrams(c, only=inp["elements"])
+        return bool(c.violations), c.violations[0]["observed"] if c.violations else "nothing foreign queued"
     if inp.get("kind") == "overlapping-attempts":
         from common import Ctx
         c = Ctx("C07", "quick", 0)
